@@ -45,6 +45,26 @@ func genC14(seed uint64) *Scenario {
 	if withStops {
 		nphases = 2 + r.n(2)
 	}
+	// lockstep: clients are released together by a barrier (often after an idle period long enough for the
+	// clock to have stopped) and then advance a few statements at a time, so that their clock start-up /
+	// extension code interleaves at statement granularity
+	lockstep := sc.Mode == "fair" && r.chance(1, 3)
+	var phaseIdle []int64
+	if lockstep {
+		sc.Mode = "lockstep"
+		if ncl < 2 {
+			ncl = 2 + r.n(2)
+		}
+		cfg.Quantum = 1 + r.i64(40)
+		nphases = 2 + r.n(3)
+		for ph := 0; ph < nphases; ph++ {
+			idle := int64(0)
+			if r.chance(2, 3) {
+				idle = []int64{int64(time.Second) + 250*p, 2*int64(time.Second) + 400*p, int64(time.Hour)}[r.n(3)]
+			}
+			phaseIdle = append(phaseIdle, idle)
+		}
+	}
 	for c := 0; c < ncl; c++ {
 		cost := p / int64(200+r.n(19800))
 		if cost < 1 {
@@ -58,7 +78,11 @@ func genC14(seed uint64) *Scenario {
 				n = 2 + r.n(5)
 			}
 			for k := 0; k < n; k++ {
-				switch x := r.n(10); {
+				x := r.n(10)
+				if lockstep && k == 0 {
+					x = []int{0, 0, 0, 1, 4, 5}[r.n(6)] // the call right behind the barrier is a timed one
+				}
+				switch {
 				case x < 4: // catastrophic timed call
 					f := catastrophic[r.n(len(catastrophic))]
 					maxD := defaultOpCap*cost/4 - 3*p
@@ -100,11 +124,16 @@ func genC14(seed uint64) *Scenario {
 					cl.Ops = append(cl.Ops, Op{Kind: OpIdle, IdleNs: idles[r.n(len(idles))]})
 				}
 			}
+			if lockstep && ph < nphases-1 && phaseIdle[ph] > 0 {
+				cl.Ops = append(cl.Ops, Op{Kind: OpIdle, IdleNs: phaseIdle[ph]})
+			}
 			if withStops && ph < nphases-1 {
 				cl.Ops = append(cl.Ops, Op{Kind: OpBarrier})
 				if c == 0 {
 					cl.Ops = append(cl.Ops, Op{Kind: OpStopClock})
 				}
+				cl.Ops = append(cl.Ops, Op{Kind: OpBarrier})
+			} else if lockstep && ph < nphases-1 {
 				cl.Ops = append(cl.Ops, Op{Kind: OpBarrier})
 			}
 		}
